@@ -1,5 +1,113 @@
 import BigtreeModel.Proto
-/-! Driver handler for property C10: one case (token list) in, one canonical line out. -/
+import BigtreeModel.DagStore
+/-! Driver handler for property C10 (also used for the DAGNode class of C02 / C20).
+
+One line = one whole history:
+`cls=dag n=<k> asrt=<0|1> names=<xhex,…|-> ops= <op> <op> …`
+
+ops (`<f>` ∈ `none|pre|post`; `<m>` = node id or `j<k>` for the k-th non-node object;
+`<arg>` = `L<m,m,…>` list, `T<m,…>` tuple, `N` non-iterable; empty member list = `-`):
+* `P:<v>:<arg>:<f>`   `v.parents = arg`         * `C:<v>:<arg>:<f>`   `v.children = arg`
+* `R:<v>:<m>:<f>`     `v >> m`                  * `S:<v>:<m>:<f>`     `v << m`
+* `D:<v>`             `del v.children`          * `X:<v>:<xname>`     `del v[name]`
+* `N:<xname>:<arg>:<arg>:<fp>:<fc>`  `DAGNode(name, parents=…, children=…)` (gets the next id)
+
+Output: for each op `<ok|rej> <i>:<parents>/<children> …` (every node, ids ascending, lists in
+store order), ops joined by ` ; `. -/
 namespace Drv.C10
-def handle (_toks : List String) : String := "unimplemented"
+open Proto DagStore
+
+/-- ids from here on stand for non-node objects -/
+def junkBase : Nat := 1000000
+
+def parseMember (t : String) : Option Nat :=
+  match t.toList with
+  | 'j' :: r => (String.ofList r).toNat?.map (junkBase + ·)
+  | _ => match t.toNat? with
+    | some i => if i < junkBase then some i else none
+    | none => none
+
+def parseMembers (t : String) : Option (List Nat) :=
+  if t == "-" then some [] else (t.splitOn ",").mapM parseMember
+
+def parseArg (t : String) : Option Arg :=
+  match t.toList with
+  | ['N'] => some .nonIter
+  | 'L' :: r => (parseMembers (String.ofList r)).map .list
+  | 'T' :: r => (parseMembers (String.ofList r)).map .tuple
+  | _ => none
+
+def parseFault (t : String) : Option Fault :=
+  match t with
+  | "none" => some .none
+  | "pre" => some .pre
+  | "post" => some .post
+  | _ => none
+
+def parseOp (t : String) : Option Op :=
+  match t.splitOn ":" with
+  | ["P", v, a, f] => do pure (.setParents (← v.toNat?) (← parseArg a) (← parseFault f))
+  | ["C", v, a, f] => do pure (.setChildren (← v.toNat?) (← parseArg a) (← parseFault f))
+  | ["R", v, o, f] => do pure (.rshift (← v.toNat?) (← parseMember o) (← parseFault f))
+  | ["S", v, o, f] => do pure (.lshift (← v.toNat?) (← parseMember o) (← parseFault f))
+  | ["D", v] => do pure (.delChildren (← v.toNat?))
+  | ["X", v, nm] => do pure (.delItem (← v.toNat?) (← unhex nm))
+  | ["N", nm, ps, cs, fp, fc] => do
+    pure (.construct (← unhex nm) (← parseArg ps) (← parseArg cs) (← parseFault fp) (← parseFault fc))
+  | _ => none
+
+def memberOk (s : DStore) (m : Nat) : Bool := m < s.n || junkBase ≤ m
+
+def argOk (s : DStore) : Arg → Bool
+  | .nonIter => true
+  | .tuple l => l.all (memberOk s)
+  | .list l => l.all (memberOk s)
+
+/-- the receiver of every call must be an existing node; a member is an existing node or a `j` object -/
+def receiverOk (s : DStore) : Op → Bool
+  | .setParents v a _ | .setChildren v a _ => v < s.n && argOk s a
+  | .rshift v o _ | .lshift v o _ => v < s.n && memberOk s o
+  | .delChildren v | .delItem v _ => v < s.n
+  | .construct _ ps cs _ _ => argOk s ps && argOk s cs
+
+def showMember (i : Nat) : String := if i < junkBase then toString i else "j" ++ toString (i - junkBase)
+def showMembers (l : List Nat) : String := if l.isEmpty then "-" else ",".intercalate (l.map showMember)
+
+def dump (s : DStore) : String :=
+  " ".intercalate ((List.range s.n).map fun i =>
+    toString i ++ ":" ++ showMembers (s.parents i) ++ "/" ++ showMembers (s.children i))
+
+def showOutcome : Outcome → String
+  | .ok => "ok"
+  | .rej => "rej"
+
+def runShow (asrt : Bool) : DStore → List Op → Option (List String)
+  | _, [] => some []
+  | s, op :: ops =>
+    if receiverOk s op then
+      let r := step asrt s op
+      (runShow asrt r.1 ops).map fun rest => (showOutcome r.2 ++ " " ++ dump r.1) :: rest
+    else none
+
+def splitAtTok (toks : List String) (t : String) : List String × List String :=
+  (toks.takeWhile (· ≠ t), (toks.dropWhile (· ≠ t)).drop 1)
+
+def handle (toks : List String) : String :=
+  let r : Option String := do
+    let (hd, opToks) := splitAtTok toks "ops="
+    if (← kv hd "cls") ≠ "dag" then none
+    let n ← (← kv hd "n").toNat?
+    let asrt ← match (← kv hd "asrt") with
+      | "1" => some true
+      | "0" => some false
+      | _ => none
+    let namesTok ← kv hd "names"
+    let names ← if namesTok == "-" then some [] else (namesTok.splitOn ",").mapM unhex
+    if names.length ≠ n then none
+    if ¬ toks.contains "ops=" then none
+    let ops ← opToks.mapM parseOp
+    let outs ← runShow asrt (init n fun i => names.getD i []) ops
+    pure (" ; ".intercalate outs)
+  r.getD "bad-op"
+
 end Drv.C10
